@@ -1,6 +1,6 @@
 /-
-Hand-written key record for the cpp2lean job `shortest` (NOT generated): what `dijkstra_init` reads and
-writes of `shortest_paths::Node<T>` — the adjacency vectors. `Node<T>*` pointers into the vector `vs`
+Hand-written key record for the cpp2lean job `shortest` (NOT generated): what `dijkstra_init` and the relax
+loop of `dijkstra` read and write of `shortest_paths::Node<T>` — the adjacency vectors and the tentative distance `d`. `Node<T>*` pointers into the vector `vs`
 are modelled by the index of the element (`&vs[v]` = `v`; `vs` is never resized while they are alive).
 Core Lean only.
 -/
@@ -11,6 +11,7 @@ open AdaptaVerif.Model.ShortestPaths (Dist)
 structure NodeK where
   neighbours : List Nat      -- `std::vector<Node<T>*> neighbours`
   nweights : List Dist       -- `std::vector<T> nweights`
+  d : Dist := none           -- `T d` (tentative distance; read and written by the relax loop of `dijkstra`)
   deriving Repr, Inhabited
 
 end AdaptaVerif.Gen.KeysShortest
